@@ -10,6 +10,7 @@ use crate::norm::{exec, PMode};
 use crate::pool::{Acc, Engine, Violation};
 use crate::prng::{fold, Rng};
 use crate::sources::*;
+use crate::gram::Need;
 use crate::tok::{Tok, CHARS};
 use crate::val::{Outcome, Sp};
 use chumsky::input::{Input, IoInput, IterInput, Stream};
@@ -80,14 +81,30 @@ impl Kind {
     pub fn uses_iter(self) -> bool {
         matches!(self, Kind::Stream | Kind::StreamBoxed | Kind::StreamExact | Kind::MappedStream | Kind::CtxStream | Kind::MapSpanStream | Kind::CharStream | Kind::IterInput)
     }
-    /// (SliceInput, BorrowInput, ExactSizeInput-with-index-rebasing) — must agree with the `caps!` table in build.rs
-    pub fn caps(self) -> (bool, bool, bool) {
+    /// SliceInput, BorrowInput, ExactSizeInput-with-index-rebasing, StrInput, StrInput with borrowed
+    /// slices — must agree with the `caps!` table in build.rs
+    pub fn caps(self) -> Need {
+        let n = |slice, borrow, exact, strin, regex| Need { slice, borrow, exact, strin, regex };
         match self {
-            Kind::Slice | Kind::Array | Kind::CtxSlice | Kind::MapSpanSlice | Kind::CharSlice => (true, true, true),
-            Kind::Str | Kind::CtxStr | Kind::MapSpanStr | Kind::Bytes => (true, false, true),
-            Kind::MappedSlice => (true, true, false),
-            Kind::StreamExact => (false, false, true),
-            _ => (false, false, false),
+            Kind::Slice | Kind::Array | Kind::CtxSlice | Kind::MapSpanSlice => n(true, true, true, true, true),
+            Kind::CharSlice => n(true, true, true, false, false),
+            Kind::Str | Kind::CtxStr | Kind::MapSpanStr => n(true, false, true, true, true),
+            Kind::Bytes => n(true, false, true, true, false),
+            Kind::MappedSlice => n(true, true, false, false, false),
+            Kind::StreamExact => n(false, false, true, false, false),
+            _ => Need::default(),
+        }
+    }
+    /// The single-copy reference for a case: the plain slice of tokens; for character cases whose
+    /// grammar needs StrInput (text parsers, regex) `&[char]` does not qualify, so `&str` is the
+    /// reference and the wrapped `&str` kinds are compared with it.
+    pub fn reference_for(need: &Need, is_char: bool) -> Kind {
+        if !is_char {
+            Kind::Slice
+        } else if need.strin {
+            Kind::Str
+        } else {
+            Kind::CharSlice
         }
     }
     pub fn is_char(self) -> bool {
@@ -263,7 +280,15 @@ pub fn run_kind(g: &G, syms: &[u8], kind: Kind, mode: PMode, env: &Env, budget: 
 }
 
 /// The documented re-basing of a reference index span [i, j) for each kind.
-pub fn rebase(kind: Kind, syms: &[u8], env: &Env) -> Box<dyn Fn(Sp) -> Sp> {
+pub fn rebase(ref_kind: Kind, kind: Kind, syms: &[u8], env: &Env) -> Box<dyn Fn(Sp) -> Sp> {
+    if ref_kind == Kind::Str {
+        // the reference already speaks byte offsets: only the wrappers re-base
+        return match kind {
+            Kind::CtxStr => Box::new(|s: Sp| Sp(CTX, s.1, s.2)),
+            Kind::MapSpanStr => Box::new(|s: Sp| Sp(MS_CTX, s.1 * MS_MUL + MS_ADD, s.2 * MS_MUL + MS_ADD)),
+            _ => Box::new(|s| s),
+        };
+    }
     match kind {
         Kind::Slice | Kind::Array | Kind::Stream | Kind::StreamBoxed | Kind::StreamExact | Kind::Io | Kind::Bytes | Kind::CharSlice | Kind::CharStream => {
             Box::new(|s| s)
@@ -307,8 +332,8 @@ pub enum Cmp {
 }
 
 /// Compare what C10 names: acceptance, output, error positions. Returns the expected (re-based) outcome too.
-pub fn compare(kind: Kind, reference: &Outcome, observed: &Outcome, syms: &[u8], env: &Env) -> (Cmp, Outcome, Outcome) {
-    let rb = rebase(kind, syms, env);
+pub fn compare(ref_kind: Kind, kind: Kind, reference: &Outcome, observed: &Outcome, syms: &[u8], env: &Env) -> (Cmp, Outcome, Outcome) {
+    let rb = rebase(ref_kind, kind, syms, env);
     let mut exp = reference.clone();
     let mut obs = observed.clone();
     if kind.is_mapped() {
@@ -596,11 +621,11 @@ impl SrcSim {
     #[allow(clippy::too_many_arguments)]
     fn run_input(&self, seed: u64, idx: u64, rng: &mut Rng, g: &G, syms: &[u8], is_char: bool, long: bool, acc: &mut Acc) -> u64 {
         let mut digest = fold(gram::digest(g), crate::prng::fold_bytes(1, syms));
-        let ref_kind = if is_char { Kind::CharSlice } else { Kind::Slice };
+        let need = gram::needs_caps(g);
+        let ref_kind = Kind::reference_for(&need, is_char);
         let (mspans, eoi) = gen_mspans(rng, syms.len());
         let base_env = Env { policy: ReaderPolicy::full(), reader_seed: 0, trace: None, hint: Hint::Exact, mspans, eoi };
         let needs_value = gram::needs_value_input(g);
-        let need = gram::needs_caps(g);
         for mode in [PMode::Parse, PMode::Check] {
             // reference: the single copy
             let rrun = run_kind(g, syms, ref_kind, mode, &base_env, (REF_TICK_CAP, u64::MAX, u64::MAX));
@@ -641,8 +666,7 @@ impl SrcSim {
                 if kind == Kind::IterInput && needs_value {
                     continue;
                 }
-                let have = kind.caps();
-                if (need.0 && !have.0) || (need.1 && !have.1) || (need.2 && !have.2) {
+                if !need.satisfied_by(&kind.caps()) {
                     continue;
                 }
                 // environments: legal policies carry the equality oracle; hard errors are characterised only
@@ -662,14 +686,23 @@ impl SrcSim {
                         }
                     }
                     acc.inc("evaluations.replica_runs");
-                    if need.0 {
+                    if need.slice {
                         acc.inc("replica_runs.with_to_slice");
                     }
-                    if need.1 {
+                    if need.borrow {
                         acc.inc("replica_runs.with_any_ref/select_ref");
                     }
-                    if need.2 {
+                    if need.exact {
                         acc.inc("replica_runs.with_span_from");
+                    }
+                    if need.strin {
+                        acc.inc("replica_runs.with_text_parsers(StrInput)");
+                    }
+                    if need.regex {
+                        acc.inc("replica_runs.with_regex");
+                    }
+                    if gram::contains(g, &|x| matches!(x, G::Padded(_))) {
+                        acc.inc("replica_runs.with_padded(skip_while)");
                     }
                     acc.inc(&format!("replica_runs.{:?}", kind));
                     record_source_stats(acc, kind, &run.stats, true);
@@ -685,7 +718,7 @@ impl SrcSim {
                             monitor = Some("iterator items handed out out of order");
                         }
                     }
-                    let (cmp, exp, obs) = compare(kind, &reference, &run.outcome, syms, &env);
+                    let (cmp, exp, obs) = compare(ref_kind, kind, &reference, &run.outcome, syms, &env);
                     if cmp == Cmp::DescriptionOnly {
                         acc.inc("soft.description_only_differences(not C10)");
                     }
@@ -758,7 +791,7 @@ impl SrcSim {
                         acc.inc("hard_error.sticky_runs");
                         let k = env.policy.sticky_at.unwrap();
                         let pre = run_kind(g, &syms[..k], ref_kind, mode, &base_env, (REF_TICK_CAP, u64::MAX, u64::MAX));
-                        let (cmp, _, _) = compare(kind, &pre.outcome, &run.outcome, &syms[..k], &env);
+                        let (cmp, _, _) = compare(ref_kind, kind, &pre.outcome, &run.outcome, &syms[..k], &env);
                         if cmp != Cmp::Positions {
                             acc.inc("hard_error.sticky_equals_prefix_parse");
                         }
@@ -885,6 +918,14 @@ impl Engine for SrcSim {
             cfg.allow_slice = rng.chance(1, 6);
             cfg.allow_borrow = !is_char && rng.chance(1, 8);
             cfg.allow_exact = rng.chance(1, 8);
+            // text parsers / regex (StrInput kinds only) and padded() (every ValueInput kind) work on the
+            // extended alphabet (whitespace, newlines, digits, underscore)
+            cfg.allow_text = rng.chance(1, 8);
+            cfg.allow_regex = cfg.allow_text && rng.chance(1, 2);
+            cfg.allow_pad = cfg.allow_text || rng.chance(1, 8);
+            if cfg.allow_text || cfg.allow_pad {
+                cfg.nsym = 16;
+            }
         }
         let g = gram::generate(&mut rng, &cfg);
         let mut d = 0;
@@ -916,7 +957,7 @@ impl Engine for SrcSim {
 /// Re-execute a replay document: returns Some(class) if it still fails (same class family).
 pub fn replay(rp: &Replay) -> Option<(String, Outcome, Outcome)> {
     let is_char = rp.kind.is_char();
-    let ref_kind = if is_char { Kind::CharSlice } else { Kind::Slice };
+    let ref_kind = Kind::reference_for(&gram::needs_caps(&rp.grammar), is_char);
     let base_env = Env { policy: ReaderPolicy::full(), reader_seed: 0, trace: None, hint: Hint::Exact, mspans: rp.env.mspans.clone(), eoi: rp.env.eoi };
     if let Some(k0) = rp.against {
         let a = run_kind(&rp.grammar, &rp.syms, k0, rp.mode, &rp.env, (REF_TICK_CAP * 16, u64::MAX, u64::MAX));
@@ -939,7 +980,7 @@ pub fn replay(rp: &Replay) -> Option<(String, Outcome, Outcome)> {
             monitor = Some("reader saw a seek to before the start of the input");
         }
     }
-    let (cmp, exp, obs) = compare(rp.kind, &r.outcome, &run.outcome, &rp.syms, &rp.env);
+    let (cmp, exp, obs) = compare(ref_kind, rp.kind, &r.outcome, &run.outcome, &rp.syms, &rp.env);
     if cmp == Cmp::Positions || monitor.is_some() {
         let class = if monitor.is_some() { "monitor" } else if obs.is_panic() { "panic-or-hang" } else { "mismatch" };
         Some((format!("{}:{:?}:{:?}{}", class, rp.kind, rp.mode, monitor.map(|m| format!(":{}", m)).unwrap_or_default()), exp, obs))
